@@ -1,7 +1,10 @@
 SPECIFICATION Spec
-CONSTANTS Variant = "c3_plus_b"  Slots = 3  Pairs = TRUE
+CONSTANTS Variant = "c3_plus_b"  Slots = 3  Guard = "or"  Pairs = TRUE
   Ws <- QW  Gs <- QG  Des <- QDe  Wps <- QWp  CpA <- QA  CpOm <- QOm  CpGa <- QGa  CpPh <- QPh  Xs <- QX
 INVARIANT TypeOK
+INVARIANT AcceptsWithinLimit
+INVARIANT AcceptedJury
+INVARIANT RejectsBeyond
 INVARIANT JuryOK
 INVARIANT RootsOK
 INVARIANT StrictWhenDamped
